@@ -23,17 +23,22 @@ import (
 	"fmt"
 	"io"
 	"net/url"
+	"os"
+	"runtime"
 	"sort"
 	"strings"
 	"sync/atomic"
 	"time"
-
 
 	"qrynverif/evid"
 	"qrynverif/inssvc"
 )
 
 const (
+	smallBody  = 4 << 10   // the allocation oracle applies to bodies up to this size
+	allocUsual = 34 << 20  // what the unchanged tree allocates at most for such a body (measured, see NOTES.md)
+	allocBound = 192 << 20 // > 5 x allocUsual
+
 	respDeadline = 10 * time.Second
 	graceBound   = 20 * time.Second // after a missed deadline: does the request end by itself (slow machine)?
 	settleBound  = 10 * time.Second
@@ -272,6 +277,43 @@ func stacksOf(m map[string]string, max int) string {
 	return sb.String()
 }
 
+func allocClass(d uint64) string {
+	for _, b := range []uint64{1, 4, 8, 16, 32, 64, 192} {
+		if d < b<<20 {
+			return fmt.Sprintf("<%dMiB", b)
+		}
+	}
+	return ">=192MiB"
+}
+
+// twin returns the case with every occurrence of the phrase (plain, query-escaped,
+// path-escaped, Influx-escaped) altered, and whether anything changed.
+func (c reqCase) twin() (reqCase, bool) {
+	tp := twinOf(c.Phrase)
+	forms := [][2]string{{c.Phrase, tp}, {url.QueryEscape(c.Phrase), url.QueryEscape(tp)}, {url.PathEscape(c.Phrase), url.PathEscape(tp)},
+		{strings.ReplaceAll(c.Phrase, " ", `\ `), strings.ReplaceAll(tp, " ", `\ `)}}
+	t := c
+	rep := func(b []byte) []byte {
+		for _, f := range forms {
+			b = bytes.ReplaceAll(b, []byte(f[0]), []byte(f[1]))
+		}
+		return b
+	}
+	t.Target = evid.Str(rep([]byte(c.Target)))
+	t.Body = rep(append([]byte(nil), c.Body...))
+	if c.Fill != nil {
+		f := *c.Fill
+		f.Unit, f.Tail = rep(append([]byte(nil), f.Unit...)), rep(append([]byte(nil), f.Tail...))
+		t.Fill = &f
+	}
+	t.Header = nil
+	for _, h := range c.Header {
+		t.Header = append(t.Header, [2]evid.Str{h[0], evid.Str(rep([]byte(h[1])))})
+	}
+	changed := string(t.Target) != string(c.Target) || !bytes.Equal(t.Body, c.Body)
+	return t, changed
+}
+
 func statusClass(s int) string {
 	switch {
 	case s >= 200 && s < 300:
@@ -317,6 +359,14 @@ func predReq(c reqCase, o *evid.Obs) error {
 	}
 	if len(rq.Body) > 1<<20 {
 		o.Tag("body:over-1m")
+	}
+	// allocation oracle: a request of a few KiB must not make the server allocate hundreds
+	// of MiB, whatever sizes it announces (runtime.MemStats.TotalAlloc counts every allocation
+	// at its full size, touched or not; the stand is quiet between cases)
+	small := len(rq.Body) <= smallBody && len(rq.Target) <= 2048
+	var m0 runtime.MemStats
+	if small {
+		runtime.ReadMemStats(&m0)
 	}
 	aborted := ""
 	if c.Client != nil && c.Client.Mode != "" {
@@ -375,6 +425,23 @@ func predReq(c reqCase, o *evid.Obs) error {
 		return fmt.Errorf("no HTTP response (%v, then %v): %s\nserver log: %s", resp.Err, again.Err, describe(c), trimTo(st.log(), 2000))
 	}
 	o.Tag(statusClass(resp.Status))
+	if small {
+		var m1 runtime.MemStats
+		runtime.ReadMemStats(&m1)
+		d := m1.TotalAlloc - m0.TotalAlloc
+		o.Tag("alloc:" + allocClass(d))
+		if fn := os.Getenv("C05_ALLOC_LOG"); fn != "" && d > 8<<20 {
+			if f, err := os.OpenFile(fn, os.O_APPEND|os.O_CREATE|os.O_WRONLY, 0o644); err == nil {
+				fmt.Fprintf(f, "%d MiB %s\n", d>>20, describe(c))
+				f.Close()
+			}
+		}
+		if d > allocBound {
+			o.Tag("outcome:alloc-amplification")
+			return fmt.Errorf("serving %s (answered %d) allocated %d MiB for %d body bytes (bound %d MiB; the unchanged tree stays below %d MiB): an announced size is trusted before it is checked - under a memory limit the process dies",
+				describe(c), resp.Status, d>>20, len(rq.Body), allocBound>>20, allocUsual>>20)
+		}
+	}
 	reached, why := reachedDecoder(c, rq.Body, resp)
 	if reached {
 		o.NonTrivial()
@@ -384,6 +451,35 @@ func predReq(c reqCase, o *evid.Obs) error {
 		}
 	} else {
 		o.Tag("turned-away:" + why)
+	}
+
+	// the twin: the same request with the error phrase it carries minimally altered must be
+	// answered alike - the status may depend on what is wrong with a request, not on
+	// whether its data reads like an error text
+	if c.Phrase != "" {
+		tw, changed := c.twin()
+		if !changed {
+			o.Tag("phrase:lost")
+		} else {
+			o.Tag("phrase:" + strings.ReplaceAll(c.Phrase, " ", "-"))
+			tresp := send(st.addr, tw.wire(), respDeadline)
+			switch {
+			case tresp.Err != nil && tresp.Timeout:
+				st.wedged = true
+				return fmt.Errorf("%s was answered %d, its twin (phrase %q altered to %q) got no response within %v", describe(c), resp.Status, c.Phrase, twinOf(c.Phrase), respDeadline)
+			case tresp.Err != nil:
+				o.Discard("twin: transport error")
+				return nil
+			case statusClass(tresp.Status) != statusClass(resp.Status):
+				o.Tag("outcome:phrase-changes-status")
+				rows := 0
+				for _, sb := range st.subs() {
+					rows += len(sb.Rows)
+				}
+				return fmt.Errorf("the answer depends on an error phrase in the request data: %s, carrying %q, was answered %d with a body of %d bytes (%d rows submitted to the insert services by both requests together); the same request with %q instead was answered %d %s",
+					describe(c), c.Phrase, resp.Status, len(resp.Body), rows, twinOf(c.Phrase), tresp.Status, trimTo(tresp.Body, 200))
+			}
+		}
 	}
 
 	// the probe: a well-formed push of another client
